@@ -694,30 +694,44 @@ impl Module for M {
                     // Observation (outside the property's quantifier, see DESIGN.md C15): with neither text nor
                     // background colour the real code measures n*(cw+sp), i.e. the line extends over the trailing
                     // spacing of a custom font.
-                    let mut deco_width = text_width;
+                    // In that one case both widths are accepted: the property text asks for "the full text
+                    // width", and the trailing spacing is a quirk the existing suite pins
+                    // (`transparent_text_dimensions_one_line_spaced`), not something the property demands.
+                    let mut deco_widths = vec![text_width];
                     if !via.starts_with('w') && tcn.is_none() && bgn.is_none() && sp > 0 && !cps.is_empty() {
-                        deco_width += sp;
+                        deco_widths.insert(0, text_width + sp);
                         ctx.count("draw:obs-transparent-text-decoration-spans-trailing-spacing");
                     }
-                    if deco_width > 0 {
-                        let eff = |d: &str| -> Option<u32> {
-                            match d {
-                                "n" => None,
-                                "t" => tcn,
-                                v => Some(v.parse().unwrap()),
+                    let eff = |d: &str| -> Option<u32> {
+                        match d {
+                            "n" => None,
+                            "t" => tcn,
+                            v => Some(v.parse().unwrap()),
+                        }
+                    };
+                    let base = want;
+                    let mut wants: Vec<PMap> = Vec::new();
+                    for deco_width in deco_widths {
+                        let mut want = base.clone();
+                        if deco_width > 0 {
+                            if let Some(c) = eff(st) {
+                                fill_rect(&mut want, x0, y0 + font.strikethrough.offset as i64, deco_width, font.strikethrough.height as i64, c);
+                                if wants.is_empty() {
+                                    ctx.count("draw:strikethrough-drawn");
+                                }
                             }
-                        };
-                        if let Some(c) = eff(st) {
-                            fill_rect(&mut want, x0, y0 + font.strikethrough.offset as i64, deco_width, font.strikethrough.height as i64, c);
-                            ctx.count("draw:strikethrough-drawn");
+                            if let Some(c) = eff(ul) {
+                                fill_rect(&mut want, x0, y0 + font.underline.offset as i64, deco_width, font.underline.height as i64, c);
+                                if wants.is_empty() {
+                                    ctx.count("draw:underline-drawn");
+                                }
+                            }
                         }
-                        if let Some(c) = eff(ul) {
-                            fill_rect(&mut want, x0, y0 + font.underline.offset as i64, deco_width, font.underline.height as i64, c);
-                            ctx.count("draw:underline-drawn");
-                        }
+                        wants.push(want);
                     }
+                    let want = &wants[0];
                     let classify = |got: &PMap| -> Option<(&'static str, String)> {
-                        if *got == want {
+                        if wants.iter().any(|w| got == w) {
                             return None;
                         }
                         let miss = want.iter().find(|(k, v)| got.get(k) != Some(v));
